@@ -9,6 +9,7 @@ spec/Asm/MC_Asm.tla           the pass loop terminates within the bound on the s
 import importlib.util
 import json
 import os
+import re
 import subprocess
 import sys
 
@@ -38,6 +39,9 @@ def site_stmt(site, a):
         "macro-mutual": ".macro ra() { rb() }\n.macro rb() { ra() }\nra()",
         "shadow-segments": "segments: { default: { start: nop } }", "interp-number": '.const ivn = 5\n.text "{ivn}{nosuch}"',
         "text-number": ".text 5", "if-string": '.if "a" { nop }',
+        "seg-redefine": '.define segment { name = "zr" start = $1000 }\n.segment "zr" { lda #1\nnop }\n.define segment { name = "zr" start = $1000 }',
+        "seg-redefine-moved": '.define segment { name = "zq" start = $1000 }\n.segment "zq" { lda #1 }\n.define segment { name = "zq" start = $3000 }\n.segment "zq" { nop }',
+        "bank-redefine": '.define bank { name = "zd" }\n.define segment { name = "zv" start = $1000 bank = "zd" }\n.segment "zv" { nop }\n.define bank { name = "zd" size = 1 }',
     }
     return t[site]
 
@@ -153,6 +157,18 @@ def main(tier):
             files = {fn: G.render(p) for fn, p in pf.items()}
         files["main.asm"] = G.render(prog)
         add(files, "")
+    # bank / segment configurations (C09's generator, faults included) with hostile option values mixed in
+    import bankslib as B
+    nbank = 0
+    for i in range(250 if tier == "quick" else 2500):
+        cfgb = B.random_cfg(rnd, True)
+        src, _toml = B.render(cfgb, rnd)
+        if i % 3 == 0:
+            val = rnd.choice(["-1", "0", "65536", "65537", "$7fffffffffffffff", "0 - $7fffffffffffffff - 1", "256", "-129", "1 << 40"])
+            key = rnd.choice(["size", "fill", "start", "pc"])
+            src = re.sub(r"\b%s = [^ }\n]+" % key, "%s = %s" % (key, val), src, count=1)
+        add({"main.asm": src}, "bank-config")
+        nbank += 1
     V.log("[C06] %d projects through the in-process pipeline" % len(cases))
     obs = run_fulldrive(cases, "C06-drive")
     recs = []
@@ -201,7 +217,7 @@ def main(tier):
     rep.cov["evaluations"] = len(recs)
     rep.cov["distinct_nontrivial"] = len({json.dumps(meta[r["id"]]["files"], sort_keys=True) for r in recs})
     rep.cov["rule"] = ("TLC hazard table (%d cases: %d sites x argument classes x 7 contexts), %d import graphs over 3 files + missing (of TLC's 1331), corpus files with seeded single-character mutants, "
-                       "%d generated programs, %d raw-byte files through the `mos build` process; every project runs parse, format, build-mode codegen, listings, greedy-mode codegen under a pass observer "
+                       "%d generated programs, %d raw-byte files through the `mos build` process; every project runs parse, format, build-mode codegen, bank merge, symbol file text, listings, greedy-mode codegen under a pass observer "
                        "(repeated state digest = proof of non-termination), panic capture, a hang watchdog and abort detection; distinct = distinct project contents" % (len(arith), 31, len(graphs), 800 if tier == "quick" else 6000, nproc))
     ends = {}
     for r in recs:
